@@ -6,6 +6,14 @@ sys.path.insert(0, ROOT)
 TECH = "bounded symbolic execution of the real Python code (CrossHair 0.0.110) with z3 deciding every path; counterexamples replayed concretely"
 
 CHECKS = {
+    "C19": dict(
+        text="(a) cache decorator: for every list of <=4 texts over a 3-text pool (thorough 4-text pool incl. all-distinct), every pre-filled cache subset, cache on/off, "
+             "key generators md5/hash/identity and two stores, every path of the real wrapper returns each text's own vector in input order and asks the model only for "
+             "uncached texts. (b) batching on a virtual-time asyncio loop: for all arrival delays (0..2 ticks) of 3 (thorough 4) concurrent clients, model latency 0..3, "
+             "max_batch_size 1..3 and hold 1..2, every client completes with its own vector, queues end empty, batches respect the size limit.",
+        note="Trusted: VLoop (integer virtual time, FIFO ties), stub model, CrossHair. Data independence is used to fix the batching texts. Outside: real model/threads, Annoy, "
+             "Redis/filesystem stores, sub-tick timing, colliding custom key generators.",
+        ref="4/C19"),
     "C20": dict(
         text="(a) For every config id string up to 5 code points (thorough 6; two ids up to 4 each) and three root spellings, z3 proves on every path of the real "
              "_get_rails (join, normpath, regex, commonprefix) that every directory handed to RailsConfig.from_path lies inside the root, else ValueError; a hostile "
